@@ -289,6 +289,13 @@ fn window_site(site: u16) -> bool {
         || site == S::HELP_REPLACEMENT as u16
         || site == S::CAS_XCHG as u16
         || site == S::NODE_CLAIM as u16
+        || site == S::HELP_CTRL_RELOAD as u16
+        || site == S::HELP_ADDR_LOAD as u16
+        || site == S::HELP_SPACE_LOAD as u16
+        || site == S::COOLDOWN_START as u16
+        || site == S::WRITER_SUB as u16
+        || site == hs::TP_INTO
+        || site == hs::CLOSURE
         || site == hs::TP_INC
         || site == hs::TP_DEC
 }
@@ -338,6 +345,11 @@ pub enum Strat {
     /// After a step of `victim` (with probability p/16) let another thread complete `k` whole
     /// operations before the victim continues.
     Adversary { victim: usize, k: u32, p: u32 },
+    /// Site-aware random: at a *window* step point (the few-instruction windows the properties name)
+    /// the running thread is parked with probability p_in/16 and another thread runs; elsewhere
+    /// only with probability p_out/16. Threads therefore tend to sit inside windows while the others
+    /// complete whole operations - the shape multi-party races need.
+    Windows { p_in: u32, p_out: u32 },
     /// Directed schedule: `inner.script` is a list of (thread, site): run that thread until it is
     /// about to execute that step point (u16::MAX = until it has finished), then go on with the
     /// next entry; after the script, round-robin until everybody is done.
@@ -597,6 +609,14 @@ fn pick(inn: &mut Inner, me: usize, site: u16) -> usize {
     }
     match inn.strat {
         Strat::Script => script_pick(inn, me, site),
+        Strat::Windows { p_in, p_out } => {
+            let p = if window_site(site) { p_in } else { p_out };
+            if inn.rng.below(16) < p as u64 {
+                random_other(inn, me).unwrap_or(me)
+            } else {
+                me
+            }
+        }
         Strat::Random { sw } => {
             if inn.rng.below(16) < sw as u64 {
                 random_other(inn, me).unwrap_or(me)
